@@ -668,6 +668,10 @@ def check_grid(malformed=None):
         lo = dy(-80, 80)
         r = rng.random()
         hi = lo if r < 0.12 else lo + d * int(rng.integers(1, 40)) if r < 0.94 else lo - d * int(rng.integers(1, 9))
+        if 0.12 <= r < 0.35:
+            # an extent of a whole number of pixels PLUS HALF a pixel: the documented count round((L + d) / d) is a tie
+            # (Python rounds half to even); both ends are still grid points
+            hi = lo + d * (int(rng.integers(0, 40)) + 0.5)
         g[ax + "min"], g[ax + "max"] = lo, hi
     ymode = rng.random()
     if ymode < 0.25:
